@@ -354,3 +354,93 @@ Theorem C14_pem_refuses_bad_char : forall name lines pre c post more maxlen, nam
   pem_read name (begin_line name ++ 10 :: nl_lines lines ++ (pre ++ c :: post) ++ 10 :: more) maxlen = Err.
 Proof. exact pem_read_bad_char. Qed.
 Print Assumptions C14_pem_refuses_bad_char.
+
+(* ---- composite objects (src/x509_alg.c, ec.c, pkcs8.c, sm2_key.c, sm2_enc.c) *)
+From GmVerif Require Import Codec.PkcsProofs Codec.PkcsOpen.
+
+Theorem C14_public_key_algor_roundtrip : forall id par e rest,
+  pk_algor_to_der id par = Ok e ->
+  pk_algor_from_der (e ++ rest) = Ok (id, (if (id =? 10)%Z then par else 1%Z), rest).
+Proof. exact pk_algor_roundtrip. Qed.
+Print Assumptions C14_public_key_algor_roundtrip.
+
+Theorem C14_encryption_algor_roundtrip : forall id iv e rest,
+  len iv = 16 -> enc_algor_to_der id iv = Ok e -> enc_algor_from_der (e ++ rest) = Ok (id, iv, rest).
+Proof. exact enc_algor_roundtrip. Qed.
+Print Assumptions C14_encryption_algor_roundtrip.
+
+(* PBKDF2-params: every presence pattern of the OPTIONAL keyLength / prf; an absent field decodes to -1 *)
+Theorem C14_pbkdf2_params_roundtrip : forall salt iter keylen prf e rest,
+  salt <> [] -> len salt <= 1048576 -> (0 < iter < 2 ^ 31)%Z ->
+  (keylen = -1 \/ 0 <= keylen < 2 ^ 31)%Z -> (prf = -1 \/ prf = 30)%Z ->
+  pbkdf2_params_to_der salt iter keylen prf = Ok e ->
+  pbkdf2_params_from_der (e ++ rest) = Ok (salt, iter, keylen, prf, rest).
+Proof. exact pbkdf2_params_roundtrip. Qed.
+Print Assumptions C14_pbkdf2_params_roundtrip.
+
+Theorem C14_encrypted_private_key_info_roundtrip : forall p enced e rest,
+  pbes2_ok p -> len enced <= 1048576 -> p8e_to_der p enced = Ok e -> p8e_from_der (e ++ rest) = Ok (p, enced, rest).
+Proof. exact p8e_roundtrip. Qed.
+Print Assumptions C14_encrypted_private_key_info_roundtrip.
+
+Theorem C14_sm2_ciphertext_roundtrip : forall x y hash c e rest,
+  length x = 32%nat -> length y = 32%nat -> len hash = 32 -> len c <= 255 ->
+  sm2_ct_to_der x y hash c = Ok e -> sm2_ct_from_der (e ++ rest) = Ok (x, y, hash, c, rest).
+Proof. exact sm2_ct_roundtrip. Qed.
+Print Assumptions C14_sm2_ciphertext_roundtrip.
+
+Theorem C14_sm2_ciphertext_canonical : forall inp x y h c rest,
+  bytes_okP inp -> len inp <= INT_MAX -> sm2_ct_from_der inp = Ok (x, y, h, c, rest) ->
+  length x = 32%nat /\ length y = 32%nat /\ len h = 32 /\ len c <= 255 /\
+  exists e, sm2_ct_to_der x y h c = Ok e /\ inp = e ++ rest.
+Proof. exact sm2_ct_canonical. Qed.
+Print Assumptions C14_sm2_ciphertext_canonical.
+
+(* keys: [pub_of d] stands for [d]G and [pt_ok] for the curve-membership test (C12/C13) *)
+Theorem C14_sm2_public_key_info_roundtrip : forall (pub_of : list N -> list N) pt_ok xy e rest,
+  length xy = 64%nat -> pt_ok (4 :: xy) = true -> sm2_pubinfo_to_der xy = Ok e ->
+  sm2_pubinfo_from_der pt_ok (e ++ rest) = Ok (xy, rest).
+Proof. exact sm2_pubinfo_roundtrip. Qed.
+Print Assumptions C14_sm2_public_key_info_roundtrip.
+
+Theorem C14_sm2_private_key_roundtrip : forall pub_of pt_ok d e rest,
+  length d = 32%nat -> d_ok d = true -> length (pub_of d) = 64%nat -> pt_ok (4 :: pub_of d) = true ->
+  sm2_priv_to_der pub_of d = Ok e -> sm2_priv_from_der pub_of pt_ok (e ++ rest) = Ok (d, pub_of d, rest).
+Proof. exact sm2_priv_roundtrip. Qed.
+Print Assumptions C14_sm2_private_key_roundtrip.
+
+Theorem C14_sm2_private_key_info_roundtrip : forall pub_of pt_ok d e rest,
+  length d = 32%nat -> d_ok d = true -> length (pub_of d) = 64%nat -> pt_ok (4 :: pub_of d) = true ->
+  sm2_p8_to_der pub_of d = Ok e -> sm2_p8_from_der pub_of pt_ok (e ++ rest) = Ok (d, pub_of d, None, rest).
+Proof. exact sm2_p8_roundtrip. Qed.
+Print Assumptions C14_sm2_private_key_info_roundtrip.
+
+Theorem C14_sm2_private_key_decoded_is_consistent : forall pub_of pt_ok inp d pub rest,
+  sm2_priv_from_der pub_of pt_ok inp = Ok (d, pub, rest) ->
+  len d = 32 /\ d_ok d = true /\ pub = pub_of d /\ pt_ok (4 :: pub) = true /\ len pub = 64.
+Proof. exact sm2_priv_from_der_sound. Qed.
+Print Assumptions C14_sm2_private_key_decoded_is_consistent.
+
+(* "opening a password-encrypted key with a wrong password never yields a key", structural form:
+   success under ANY password means valid CBC padding under the key derived from that password,
+   exactly one PrivateKeyInfo as plaintext, and embedded public key = [d]G *)
+Theorem C14_encrypted_key_open_sound : forall pub_of pt_ok kdf cbcdec pass inp d pub attrs rest,
+  sm2_p8_open_c pub_of pt_ok kdf cbcdec pass inp = Ok (d, pub, attrs, rest) ->
+  attrs = None /\
+  exists p enced pt a, p8e_from_der inp = Ok (p, enced, rest)
+    /\ cbcdec (kdf pass (p_salt p) (p_iter p)) (p_iv p) enced = Some pt
+    /\ sm2_p8_from_der pub_of pt_ok pt = Ok (d, pub, a, [])
+    /\ pub = pub_of d /\ d_ok d = true /\ pt_ok (4 :: pub) = true.
+Proof. exact sm2_p8_open_c_sound. Qed.
+Print Assumptions C14_encrypted_key_open_sound.
+
+Theorem C14_encrypted_key_seal_open_partial : forall pub_of pt_ok kdf cbcdec cbcenc pass p d info e rest,
+  (forall key iv x, cbcdec key iv (cbcenc key iv x) = Some x) ->
+  pbes2_ok p -> (p_keylen p = -1 \/ p_keylen p = 16)%Z ->
+  length d = 32%nat -> d_ok d = true -> length (pub_of d) = 64%nat -> pt_ok (4 :: pub_of d) = true ->
+  sm2_p8_to_der pub_of d = Ok info ->
+  len (cbcenc (kdf pass (p_salt p) (p_iter p)) (p_iv p) info) <= 256 ->
+  p8e_to_der p (cbcenc (kdf pass (p_salt p) (p_iter p)) (p_iv p) info) = Ok e ->
+  sm2_p8_open pub_of pt_ok kdf cbcdec pass (e ++ rest) = Ok (d, pub_of d, None, rest).
+Proof. exact sm2_p8_seal_open. Qed.
+Print Assumptions C14_encrypted_key_seal_open_partial.
